@@ -244,9 +244,12 @@ long env_write(int fd, const void *buf, size_t n)
 		elog('W');
 		return -1;
 	}
-	if (kind == ENV_SHORT && arg > 0 && (size_t) arg < n) {
-		env_shorts_hit++;
-		n = arg;
+	if (kind == ENV_SHORT) {	/* arg: bytes accepted; -1 = half, -2 = all but one */
+		long k = arg == -1 ? (long) n / 2 : arg == -2 ? (long) n - 1 : arg;
+		if (k > 0 && (size_t) k < n) {
+			env_shorts_hit++;
+			n = k;
+		}
 	}
 	f = &env_fs[env_fd[fd].file];
 	fgrow(f, env_fd[fd].pos + n + 1);
